@@ -124,6 +124,26 @@ def _ground(ob, ctx, rounds=2, max_terms=60):
                 for t in list(terms.values()):
                     rel = (app >= sym.body(t)) if sym.is_max else (app <= sym.body(t))
                     extra.append(z3.Implies(z3.And(a <= t, t < b), rel))
+        # extensionality between different Sigma symbols applied to the same range: if the sums differ,
+        # the bodies differ somewhere inside the range (witness w)
+        groups = {}
+        for aid, ((kind, sym), app) in apps.items():
+            if kind == "sum":
+                groups.setdefault((app.arg(0).get_id(), app.arg(1).get_id()), []).append((sym, app))
+        for key, lst in groups.items():
+            for x in range(len(lst)):
+                for y in range(x + 1, len(lst)):
+                    (s1, a1), (s2, a2) = lst[x], lst[y]
+                    if s1 is s2:
+                        continue
+                    tag = (s1.name, s2.name, key)
+                    if tag in unfolded:
+                        continue
+                    unfolded.add(tag)
+                    w = z3.Int(f"ext!{s1.name}!{s2.name}!{key[0]}!{key[1]}")
+                    a, b = a1.arg(0), a1.arg(1)
+                    extra.append(z3.Implies(a1 != a2, z3.And(a <= w, w < b, s1.body(w) != s2.body(w))))
+                    terms.setdefault(w.get_id(), w)
         tl = list(terms.values())[:max_terms]
         for qi, qa in enumerate(ob.qassumes or []):
             for t in tl:
